@@ -326,7 +326,7 @@ func recvOfAny(c ssa.CallInstruction) ssa.Value {
 func uncoveredFields(fn *ssa.Function, param string, depth int) []string {
 	var p *ssa.Parameter
 	for _, x := range fn.Params {
-		if x.Name() == param {
+		if pname(x) == param {
 			p = x
 		}
 	}
